@@ -1,10 +1,10 @@
 /-
 C02 — light programs WITH LOOPS against a command-level abstract machine.
 
-`LCmd` adds LOOP_BEGIN n / LOOP_END to the straight-line commands; `encodeL cs` is the bytecode.  The abstract machine
+`LCmd` adds LOOP_BEGIN n / LOOP_END and RESET_CLOCK to the straight-line commands; `encodeL cs` is the bytecode.  The abstract machine
 `am cs k` (Sb/Proofs/LightMachine.lean, 25 lines) is the documented meaning: an index into the command list, a loop stack
 of at most four (first body command, iterations left; 0 = forever; a fifth LOOP_BEGIN is ignored), the program time, the
-colour in effect and the pyro mask; one step executes one command.  For every program whose machine run leaves the
+clock origin (moved by RESET_CLOCK; WAIT_UNTIL counts from it), the colour in effect and the pyro mask; one step executes one command.  For every program whose machine run leaves the
 command list after `K` steps within 2^24 ms (`Terminates`), EVERY history of seeks and every timestamp that is not a
 machine step instant:
 
@@ -23,7 +23,7 @@ open Sb Sb.Lights Sb.Proofs Sb.Proofs.Light Sb.C09
 /-- the machine's colour while command `c`, started from machine state `m`, is in force, at time `t` -/
 def specM (c : Cmd) (m : MState) (t : Nat) : Color :=
   match c with
-  | .fade r g b d =>
+  | .fade en r g b d =>
     if d = 0 then (r, g, b)
     else lerp m.col (r, g, b) (((t - m.T : Nat) : ℚ) / ((20 * d : Nat) : ℚ))
   | _ => c.colour m.col
@@ -80,20 +80,21 @@ theorem m_fades_short (cs : List LCmd) (hw : WFL cs) (K : Nat) (ht : Terminates 
       have hli : LiveM cs (i + 1) := liveM_mono ht.live (by omega)
       obtain ⟨f, af, _, _⟩ := machine_chain cs hw i hli (fun q hq => ht.time q (by omega))
       have hT := ht.time (i + 1) (by omega)
-      rw [am_m_succ cs i hli] at hT
+      rw [am_m_succ cs i hli, LCmd.applyM_T] at hT
       generalize (cs[(am cs i).idx]'(hli i (by omega))).asCmd = c at af hT
       cases c with
-      | fade r g b d =>
+      | fade en r g b d =>
         by_cases hd0 : d = 0
         · simp only [GAfter, hd0, if_true] at af
           rw [af.1] at ha; exact absurd ha (by decide)
         · simp only [GAfter, hd0, if_false] at af
           rw [af.2.2.1]
-          simp only [Cmd.apply, Cmd.next] at hT
+          simp only [Cmd.nextR, Cmd.next] at hT
           omega
       | sleep d => rw [af.1] at ha; exact absurd ha (by decide)
-      | set r g b d => rw [af.1] at ha; exact absurd ha (by decide)
+      | set en r g b d => rw [af.1] at ha; exact absurd ha (by decide)
       | pyro m => rw [af.1] at ha; exact absurd ha (by decide)
+      | pyroSet m => rw [af.1] at ha; exact absurd ha (by decide)
       | nop => rw [af.1] at ha; exact absurd ha (by decide)
       | waitUntil v => rw [af.1] at ha; exact absurd ha (by decide)
 
@@ -136,7 +137,7 @@ theorem machine_running (cs : List LCmd) (hw : WFL cs) (K : Nat) (ht : Terminate
     rw [hcol]
     have hT := ht.time (k + 1) (by omega)
     have hm := am_m_succ cs k hli
-    rw [hm] at hT h2
+    rw [hm, LCmd.applyM_T] at hT h2
     simp only [Nat.add_sub_cancel] at b1
     generalize (cs[(am cs k).idx]'(hli k (by omega))).asCmd = c at af hT h2
     have idle : (chain (encodeL cs) (k + 1)).exec.trActive = false →
@@ -145,7 +146,7 @@ theorem machine_running (cs : List LCmd) (hw : WFL cs) (K : Nat) (ht : Terminate
       intro t1 t2
       unfold stepFade; simp [t1, t2]
     cases c with
-    | fade r g b d =>
+    | fade en r g b d =>
       by_cases hd0 : d = 0
       · simp only [GAfter, hd0, if_true] at af
         simp only [specM, hd0, if_true]
@@ -154,7 +155,7 @@ theorem machine_running (cs : List LCmd) (hw : WFL cs) (K : Nat) (ht : Terminate
       · simp only [GAfter, hd0, if_false] at af
         simp only [specM, hd0, if_false]
         obtain ⟨a1, a2, a3, a4, a5, a6⟩ := af
-        simp only [Cmd.apply, Cmd.next] at hT h2
+        simp only [Cmd.nextR, Cmd.next] at hT h2
         have hD : 20 * d ≤ 16777216 := by omega
         unfold stepFade
         rw [if_pos a1, fadeFinish_color]
@@ -162,8 +163,9 @@ theorem machine_running (cs : List LCmd) (hw : WFL cs) (K : Nat) (ht : Terminate
         simp only [progress_eq, a2, a3, a4, a5]
         rw [progressOf_exact _ _ _ (le_of_lt h1) (by omega) hD]
     | sleep d => exact idle af.1 af.2.1
-    | set r g b d => exact idle af.1 af.2.1
+    | set en r g b d => exact idle af.1 af.2.1
     | pyro m => exact idle af.1 af.2.1
+    | pyroSet m => exact idle af.1 af.2.1
     | nop => exact idle af.1 af.2.1
     | waitUntil v => exact idle af.1 af.2.1
   · exfalso
@@ -224,7 +226,7 @@ theorem loop_repeats (cs : List LCmd) (body : List Cmd) (n i0 : Nat) (s : AM) (h
 
 /-- three times (red 0.2 s, blue 0.2 s), then hold 0.1 s -/
 def demoL : List LCmd :=
-  [.loopBegin 3, .base (.set 255 0 0 10), .base (.set 0 0 255 10), .loopEnd, .base (.sleep 5)]
+  [.loopBegin 3, .base (.set .rgb 255 0 0 10), .base (.set .rgb 0 0 255 10), .loopEnd, .base (.sleep 5)]
 
 theorem demoL_bytes : encodeL demoL = [12, 3, 4, 255, 0, 0, 10, 4, 0, 0, 255, 10, 13, 2, 5] := by
   simp only [encodeL, demoL, List.map, LCmd.bytes, Cmd.bytes, List.flatten, varint_small 10 (by decide), varint_small 5 (by decide)]
@@ -234,7 +236,7 @@ theorem demoL_wf : WFL demoL := by
   refine ⟨?_, by decide, by rw [demoL_bytes]; decide⟩
   intro c hc
   simp only [demoL, List.mem_cons, List.mem_nil_iff, or_false] at hc
-  rcases hc with rfl | rfl | rfl | rfl | rfl <;> simp [LCmd.ok, Cmd.ok]
+  rcases hc with rfl | rfl | rfl | rfl | rfl <;> simp [LCmd.ok, Cmd.ok, Enc.fits]
 
 /-- 1 LOOP_BEGIN + 3 × (2 commands + LOOP_END) + 1 sleep = 11 steps, 1300 ms -/
 theorem demoL_terminates : Terminates demoL 11 := ⟨by decide, by unfold LiveM; decide, by decide, by decide⟩
@@ -242,12 +244,19 @@ theorem demoL_terminates : Terminates demoL 11 := ⟨by decide, by unfold LiveM;
 example : (am demoL 11).m.T = 1300 ∧ (am demoL 11).m.col = (0, 0, 255) ∧ (am demoL 4).m.T = 400 ∧ (am demoL 4).idx = 1 := by decide
 
 /-- the loop of `demoL`, by the general lemma: 1 + 3·3 = 10 steps, body run three times -/
-example : (amStep demoL)^[10] AM.init = { AM.init with idx := 4, m := (runBase [.set 255 0 0 10, .set 0 0 255 10])^[3] AM.init.m } :=
-  loop_repeats demoL [.set 255 0 0 10, .set 0 0 255 10] 3 0 AM.init (by decide) rfl rfl (by decide) rfl
+example : (amStep demoL)^[10] AM.init = { AM.init with idx := 4, m := (runBase [.set .rgb 255 0 0 10, .set .rgb 0 0 255 10])^[3] AM.init.m } :=
+  loop_repeats demoL [.set .rgb 255 0 0 10, .set .rgb 0 0 255 10] 3 0 AM.init (by decide) rfl rfl (by decide) rfl
     (by intro q hq
         have : q = 0 ∨ q = 1 := by simp at hq; omega
         rcases this with rfl | rfl <;> rfl)
     rfl
+
+/-- a clock reset: hold 0.2 s; RESET_CLOCK; wait until 0.3 s *on the new clock* (absolute 0.5 s); white 0.1 s -/
+def demoR : List LCmd := [.base (.sleep 10), .resetClock, .base (.waitUntil 15), .base (.set .white 255 255 255 5)]
+
+example : (am demoR 2).m.R = 200 ∧ (am demoR 3).m.T = 500 ∧ (am demoR 4).m.T = 600 ∧ (am demoR 4).idx = 4 := by decide
+
+theorem demoR_terminates : Terminates demoR 4 := ⟨by decide, by unfold LiveM; decide, by decide, by decide⟩
 
 /-- the theorem applied: whatever was asked before, at 500 ms (second iteration, red phase) the player shows red,
 pyro off, not ended -/
